@@ -6,11 +6,14 @@ from ..symx import run_paths
 from ..lin import Form, Lin
 
 MANIFEST = {
-    'technique': 'effect (purity/alias) analysis by path-wise symbolic execution of the Reaction operator methods; linear-form comparison of binary and in-place operators; field-mutability rule for copy()',
-    'text': 'Decides for every input: the value-returning operators of Reaction (copy, +, -, *, /, neg, backwards) store nothing through self or '
-            'the argument and return a fresh object on every path; copy() of a reaction set does not share mutable state; each in-place operator '
-            'computes the same linear form for stoichiometry and conversion as its binary twin with consistent signs; ReactionItem aliases the '
-            'parent arrays. Equality of reaction products on feeds is not decided.',
+    'technique': 'effect (purity/alias) analysis by path-wise symbolic execution of the Reaction operator methods; linear-form comparison of binary and in-place '
+            "operators; field-mutability rule for copy(); helper summary 'the operand object is never changed before it is copied'; storability rule for attributes "
+            'of hand-built instances (slots / properties with setters, class-decorator injections resolved)',
+    'text': 'Decides for every input: the value-returning operators of Reaction (copy, +, -, *, /, neg, backwards) store nothing through self or the argument and '
+            'return a fresh object on every path; copy() of a reaction set does not share mutable state; each in-place operator computes the same linear form for '
+            'stoichiometry and conversion as its binary twin with consistent signs; ReactionItem aliases the parent arrays; the helper shared by the binary and '
+            'in-place operators never changes the operand object itself; every attribute stored on an instance built with K.__new__(K) is storable (else the '
+            'operator can never return). Equality of reaction products on feeds is not decided.',
 }
 
 RX = 'thermosteam/reaction/_reaction.py'
@@ -48,21 +51,65 @@ def run(ctx):
         'D1 copy/+/-/*/ / /neg/backwards store nothing through self or the operand and return a fresh object on every path; copy of a reaction set shares no mutable field',
         'D2 each in-place operator yields the same linear forms (stoichiometry, X) as its binary twin, with consistent signs',
         'D3 ReactionItem aliases the parent set\'s X array and stoichiometry row; its X property reads/writes through the alias',
+        'D4 every attribute stored on an instance created with K.__new__(K) in the reaction module is storable there (a slot, or a property with a setter): '
+        'a store to a getter-only property raises AttributeError, so the copy / negation / sum could never be returned',
     ]
     ctx.not_decided = ['equality of products when the combined reactions are applied to arbitrary feeds (numerical)']
     R = prog.cls('Reaction', RX)
     d1 = ctx.rule('D1', 'operators are pure and return fresh objects', floor=12)
     d2 = ctx.rule('D2', 'binary operator == in-place operator (D-lin), sign consistency', floor=8)
     d3 = ctx.rule('D3', 'ReactionItem shares parent arrays', floor=4)
+    d4 = ctx.rule('D4', 'hand-built copies only store attributes that can be stored', floor=20)
+    from ..generic import storable_attributes
+    storable_attributes(prog, d4, rels={RX})
 
     # helper summary: _math_compatible_reaction(copy=True) returns a copy
     mc = prog.method('Reaction', '_math_compatible_reaction', rel=RX)
-    ps, _ = run_paths(mc.node, decide=lambda t, s: True if src(t).startswith('copy or') else None)
+    p_rxn, p_copy = mc.params[1], mc.params[2]
+    ps, _ = run_paths(mc.node, decide=lambda t, s: True if src(t).startswith(p_copy + ' or') or src(t) == p_copy else None)
     rets = [p for p in ps if not p.raised]
-    if rets and all(p.ret is not None and p.ret.pretty().startswith('rxn.copy(') for p in rets):
+    if rets and all(p.ret is not None and p.ret.pretty().startswith(p_rxn + '.copy(') for p in rets):
         d1.ok('Reaction._math_compatible_reaction', 'with copy=True returns rxn.copy(basis) on all %d normal paths' % len(rets), mc)
     else:
         d1.fail('Reaction._math_compatible_reaction', 'not-a-copy', 'with copy=True does not return a copy of the operand', mc, mc.node)
+    # ... and never changes the operand object itself (the in-place operators call it with copy=False)
+    rx_mod = prog.module(RX)
+    mutators = set()
+    for name_, g_ in rx_mod.functions.items():
+        if not g_.params:
+            continue
+        q0 = g_.params[0]
+        for n in walk_no_nested(g_.node):
+            if isinstance(n, (ast.Attribute, ast.Subscript)) and isinstance(n.ctx, ast.Store) and _root_name(n) == q0:
+                mutators.add(name_)
+            if isinstance(n, ast.Call) and isinstance(n.func, ast.Attribute) and src(n.func.value) == q0 and n.func.attr in MUTATING_METHODS:
+                mutators.add(name_)
+    all_ps, _ = run_paths(mc.node)
+    touched = None
+    n_normal = 0
+    for p in all_ps:
+        if p.raised:
+            continue
+        n_normal += 1
+        orig = True
+        for e in p.events:
+            if e.kind == 'assign' and e.target == p_rxn:
+                orig = False
+            if not orig:
+                continue
+            if e.kind in ('store', 'augstore') and _root_name(e.node) == p_rxn:
+                touched = (e, 'stores through the operand (%s)' % src(e.node))
+            if e.kind == 'call':
+                if e.target in mutators and e.value and isinstance(e.value[0], Form) and e.value[0] == Form.atom(p_rxn):
+                    touched = (e, 'passes the operand itself to %s, which changes its first argument in place' % e.target)
+                parts = e.target.split('.')
+                if len(parts) == 2 and parts[0] == p_rxn and parts[1] in MUTATING_METHODS:
+                    touched = (e, 'calls the mutator %s on the operand itself' % e.target)
+    if touched is None:
+        d1.ok('Reaction._math_compatible_reaction', 'the operand object is never changed (it is copied before any re-basing) on all %d normal paths' % n_normal, mc)
+    else:
+        d1.fail('Reaction._math_compatible_reaction', 'helper-mutates-operand',
+                'on a path where the operand has not been copied the helper %s: a += b / a - b change b' % touched[1], mc, touched[0].stmt)
     # ... and raises when the reactants differ
     raises_on_idx = False
     for n in ast.walk(mc.node):
@@ -122,6 +169,9 @@ def run(ctx):
             d3.fail('ReactionItem.X.setter', 'setter', 'setter does not write through to the shared array', s, s.node)
 
 
+MUTATING_METHODS = ('__iadd__', '__isub__', '__imul__', '__itruediv__', '_rescale', 'reset_chemicals')
+
+
 def purity(ctx, d1, f, cname):
     paths, _ = run_paths(f.node, call_hook=None)
     params = f.params
@@ -154,7 +204,7 @@ def purity(ctx, d1, f, cname):
                 # in-place dunder / mutator called on self or operand
                 parts = e.target.split('.')
                 if len(parts) == 2 and parts[0] in ('self',) + tuple(params[1:]) and parts[0] not in fresh \
-                        and parts[1] in ('__iadd__', '__isub__', '__imul__', '__itruediv__', '_rescale', 'reset_chemicals'):
+                        and parts[1] in MUTATING_METHODS:
                     d1.fail(cons, 'mutates-call', 'calls mutator %s' % e.target, f, e.stmt)
                     bad = True
         # return value fresh?
